@@ -25,7 +25,7 @@ ASSUMPTIONS = [
     'identifiers are reported, not enforced: loader-built initial states in which two live instances agree on the declared '
     'identifier Id (schemas a, b, c, d, e, f, h); in every state where that holds the operator menu also has equality filters '
     'covering the identifier (where_eq(Id=v); where_eq(ID=v, S=..); the dict {id: v, n: ..}), alone and paired (either order) '
-    'with every other operator, and navigations ending in such a class get the closer where_eq(Id=v)',
+    'with every other operator, and navigations of up to two hops ending in such a class get the closer where_eq(Id=v)',
     'subtype navigation is compared only when at most one subtype instance is related (the statement says "the one")',
 ]
 EXTRA = [('N', 'integer'), ('S', 'string')]
@@ -348,7 +348,7 @@ class QueryModel(c02.CappedModel):
                         cur = nxt
                     end = [k for k in self.schema.kinds() if k.upper() == chain[-1][0].upper()][0]
                     idcl = [[['eq', {'Id': v}]] for v in self.shared_ids(w, end)[:1]]
-                    for cl in (closers if len(chain) <= 2 else closers[:2]) + idcl:
+                    for cl in (closers + idcl) if len(chain) <= 2 else closers[:2]:
                         exp = self.ref_apply(w, cur, cl)
                         ctx.count('navigations')
                         if cl in idcl:
